@@ -1,0 +1,135 @@
+//go:build verif
+
+package scheduler
+
+import (
+	"encoding/binary"
+
+	"github.com/cometbft/cometbft/abci/types"
+
+	beacon "github.com/oasisprotocol/oasis-core/go/beacon/api"
+	"github.com/oasisprotocol/oasis-core/go/common"
+	"github.com/oasisprotocol/oasis-core/go/common/crypto/signature"
+	"github.com/oasisprotocol/oasis-core/go/common/crypto/tuplehash"
+	"github.com/oasisprotocol/oasis-core/go/common/logging"
+	"github.com/oasisprotocol/oasis-core/go/common/node"
+	"github.com/oasisprotocol/oasis-core/go/consensus/cometbft/api"
+	stakingState "github.com/oasisprotocol/oasis-core/go/consensus/cometbft/apps/staking/state"
+	registry "github.com/oasisprotocol/oasis-core/go/registry/api"
+	scheduler "github.com/oasisprotocol/oasis-core/go/scheduler/api"
+	staking "github.com/oasisprotocol/oasis-core/go/staking/api"
+)
+
+// This file exists only under the "verif" build tag. It exports the
+// package-private election helpers unchanged, for the verification harness.
+
+// VerifElectValidators calls electValidators.
+func VerifElectValidators(
+	ctx *api.Context,
+	epoch beacon.EpochTime,
+	beaconParameters *beacon.ConsensusParameters,
+	stakeAcc *stakingState.StakeAccumulatorCache,
+	rewardableEntities map[staking.Address]struct{},
+	nodes []*node.Node,
+	schedulerParameters *scheduler.ConsensusParameters,
+	entropy []byte,
+	vrf *beacon.PrevVRFState,
+) (map[staking.Address]struct{}, error) {
+	return electValidators(ctx, epoch, beaconParameters, stakeAcc, rewardableEntities, nodes, schedulerParameters, entropy, vrf)
+}
+
+// VerifElectCommittee calls electCommittee for the executor committee kind.
+func VerifElectCommittee(
+	ctx *api.Context,
+	epoch beacon.EpochTime,
+	schedulerParameters *scheduler.ConsensusParameters,
+	beaconParameters *beacon.ConsensusParameters,
+	registryParameters *registry.ConsensusParameters,
+	stakeAcc *stakingState.StakeAccumulatorCache,
+	rewardableEntities map[staking.Address]struct{},
+	validatorEntities map[staking.Address]struct{},
+	rt *registry.Runtime,
+	nodes []*node.Node,
+	statuses []*registry.NodeStatus,
+	entropy []byte,
+	vrf *beacon.PrevVRFState,
+	isFeatureVersion261 bool,
+) error {
+	nws := make([]*nodeWithStatus, 0, len(nodes))
+	for i := range nodes {
+		nws = append(nws, &nodeWithStatus{nodes[i], statuses[i]})
+	}
+	return electCommittee(ctx, epoch, schedulerParameters, beaconParameters, registryParameters, stakeAcc,
+		rewardableEntities, validatorEntities, rt, nws, scheduler.KindComputeExecutor, entropy, vrf, isFeatureVersion261)
+}
+
+// VerifDiffValidators calls diffValidators.
+func VerifDiffValidators(current, pending map[signature.PublicKey]*scheduler.Validator) []types.ValidatorUpdate {
+	return diffValidators(logging.GetLogger("verif"), current, pending)
+}
+
+// VerifDedupEntityNodesTrivial calls dedupEntityNodesTrivial.
+func VerifDedupEntityNodesTrivial(nodes []*node.Node, perEntityLimit uint16) []*node.Node {
+	return dedupEntityNodesTrivial(nodes, perEntityLimit)
+}
+
+// VerifStakingAddressMapToSliceByStake calls stakingAddressMapToSliceByStake.
+func VerifStakingAddressMapToSliceByStake(
+	entities map[staking.Address]struct{},
+	stakeAcc *stakingState.StakeAccumulatorCache,
+	entropy []byte,
+	schedulerParameters *scheduler.ConsensusParameters,
+) ([]staking.Address, error) {
+	return stakingAddressMapToSliceByStake(entities, stakeAcc, entropy, schedulerParameters)
+}
+
+// VerifPerm returns initRNG(entropy, nonce, context).Perm(n): the index list the elections use.
+func VerifPerm(entropy, nonce, context []byte, n int) ([]int, error) {
+	rng, err := initRNG(entropy, nonce, context)
+	if err != nil {
+		return nil, err
+	}
+	return rng.Perm(n), nil
+}
+
+// VerifShuffleAddresses runs sortAddresses-independent shuffleAddresses with the entities RNG on n
+// placeholder addresses and returns, for every output position, the input position it came from.
+func VerifShuffleAddresses(entropy []byte, n int) ([]int, error) {
+	rng, err := initRNG(entropy, nil, RNGContextEntities)
+	if err != nil {
+		return nil, err
+	}
+	addrs := make([]staking.Address, n)
+	for i := range addrs {
+		binary.BigEndian.PutUint64(addrs[i][1:9], uint64(i))
+	}
+	shuffleAddresses(addrs, rng)
+	out := make([]int, n)
+	for i := range addrs {
+		out[i] = int(binary.BigEndian.Uint64(addrs[i][1:9]))
+	}
+	return out, nil
+}
+
+// VerifHashedBeta is hashBeta over one of the three beta hashers.
+// which: 0 validator, 1 committee, 2 committee de-duplication.
+func VerifHashedBeta(
+	which int,
+	chainContext []byte,
+	epoch beacon.EpochTime,
+	runtimeID common.Namespace,
+	role scheduler.Role,
+	beta []byte,
+) [32]byte {
+	base := func() *tuplehash.Hasher {
+		switch which {
+		case 0:
+			return newBetaHasher([]byte("oasis-core:vrf/validator"), chainContext, epoch)
+		case 1:
+			return newCommitteeBetaHasher(chainContext, epoch, runtimeID, scheduler.KindComputeExecutor, role)
+		default:
+			return newCommitteeDedupBetaHasher(chainContext, epoch, runtimeID, scheduler.KindComputeExecutor, role)
+		}
+	}
+	return hashBeta(base, beta)
+}
